@@ -336,6 +336,8 @@ def contains(x, st, cont: V, item: V):
     """item in cont for kinds; None when not ours"""
     if item.k != "kind":
         return None
+    if cont.k == "kindset_s":
+        return z3.Contains(cont.t, item.t)
     names = kind_names(cont)
     if names is not None:
         return member_of(item.t, names)
@@ -410,6 +412,10 @@ def clause_builtin(x, st, name, pos, kw, node):
         return v.t
     if name == "has_kind":
         s = seq_of(pos[0])
+        if pos[1].k == "kindset_s":
+            fl = pos[1].t
+            return [(st, vbool(z3.Or(*[z3.And(z3.Contains(fl, z3.StringVal(code(n))), z3.Contains(s, z3.StringVal(code(n))))
+                                       for n in universe()])))]
         names = kind_names(pos[1])
         if names is not None:
             return [(st, vbool(z3.Or(*[z3.Contains(s, z3.StringVal(code(n))) for n in sorted(names)])
